@@ -419,7 +419,19 @@ def unit_forced(u, rec):
                                   n=n, index=i, constant=constant)
                     if n:
                         rec.outcome_array(got)
-        rec.sample({"op": "rollout(ForcedStepper)", "inner": fam, "n_max": u["n_max"]})
+                    # the same trajectory through the Fourier-space entry point of the wrapper (state and forcing as coefficients)
+                    s_hat = ex.fft(jnp.asarray(s), num_spatial_dims=D)
+                    aux_hat = ex.fft(aux, num_spatial_dims=D)
+                    got_hat = ex.rollout(fs.step_fourier, n, takes_aux=True, constant_aux=constant)(s_hat, aux_hat)
+                    rec.count(traces=1)
+                    if not rec.check(tuple(got_hat.shape) == (n, C) + tuple(s_hat.shape[1:]), "C14/forced_rollout_fourier/shape", "wrong trajectory shape", n=n, got=list(got_hat.shape)):
+                        continue
+                    got_f = np.asarray(ex.ifft(got_hat, num_spatial_dims=D, num_points=N)) if n else np.zeros((0, C) + (N,) * D)
+                    for i in range(n):
+                        rec.close(np.max(np.abs(got_f[i] - want[i])), 1e-11 * max(1, np.max(np.abs(want[i]))) * (i + 1),
+                                  f"C14/forced_rollout_fourier/entry/{fam}", "rollout over ForcedStepper.step_fourier differs from the manual loop inner(u + dt f)",
+                                  n=n, index=i, constant=constant)
+        rec.sample({"op": "rollout(ForcedStepper) and rollout(ForcedStepper.step_fourier)", "inner": fam, "n_max": u["n_max"]})
 
 
 # --------------------------------------------------------------------------- build_ic_set
